@@ -199,7 +199,10 @@ def run(ctx):
     stats = Stats()
     if ctx.get("replay"):
         f = json.load(open(ctx["replay"]))
-        line = f["failing_input"]["case"]
+        if "failing_input" in f:
+            line = f["failing_input"]["case"]
+        else:
+            line = json.loads(f["no_longer_checks"][0]["detail"])["first"]["case"]
         name = line.split(" ")[0]
         hist, agree = ([line], []) if name in ("bls.hist", "bls.o_hist") else ([], [line])
         if name == "bls.o_hist":
@@ -230,10 +233,21 @@ def run(ctx):
             rej = any(v[5] == "0" for v in _verdicts(i))
             return (toks[1], max(p.count("|") for p in toks[4:]), i) if (par or (acc and rej)) else None
         if ctx["have_model"]:
-            diff_stream(rep, "bls.hist", hist, impl, model, key,
-                        why="verdicts / len / key order of the real BlsCache under the forced schedule differ from the model")
+            # A model/implementation disagreement is a broken correspondence, not yet a violation of the
+            # property as stated: the property-level oracles below (agreement of the five real verdicts,
+            # bls.o_hist) decide whether the same input is a concrete failing input.
+            fails_before = len(rep.failures)
+            sub = C.Report(rep.pid, rep.tier, rep.seed)
+            diff_stream(sub, "bls.hist", hist, impl, model, key)
+            rep.streams["bls.hist"] = sub.streams["bls.hist"]
+            rep.evaluations += sub.evaluations
+            rep.traces += sub.traces
+            rep.nontrivial |= sub.nontrivial
+            rep.samples += sub.samples
+            corr_fail = sub.failures
         else:
             rep.evaluations += len(hist)
+            corr_fail = []
         # internal consistency of the implementation's own five verdicts (no model needed):
         # the property: single == aggregate; gt/pairing (when shown) == aggregate; cached == aggregate
         for line, o in zip(hist, impl):
@@ -257,6 +271,15 @@ def run(ctx):
                 rep.add_failure("bls.o_hist", l, o, "OK", "cache transparency / capacity / entry invariant violated on the real BlsCache")
         rep.streams["bls.o_hist"] = {"cases": len(olines), "ok": sum(1 for o in outs if o == "OK")}
         rep.evaluations += len(olines)
+        if corr_fail:
+            bad_oracle = {f["case"] for f in rep.failures}
+            concrete = [f for f in corr_fail if f["case"] in bad_oracle or ("bls.o_hist" + f["case"][len("bls.hist"):]) in bad_oracle]
+            if not concrete:
+                corr_fail.sort(key=lambda f: len(f["case"]))
+                rep.add_broken("correspondence", "bls.hist",
+                               json.dumps({"disagreements": len(corr_fail), "first": corr_fail[0],
+                                           "note": "model (Bls/Sched.v on the Toy instance) and the real BlsCache differ in len / key order / "
+                                                   "scheduling; on the same inputs the real verdicts agree with each other"}))
     if agree:
         outs = C.run_lines(C.VH(UNIT), agree, timeout=1500)
         for l, o in zip(agree, outs):
